@@ -436,6 +436,9 @@ func cmdDiffRef(args []string) error {
 		} else {
 			stats["err:none"]++
 		}
+		if len(cs.Oracle) == 0 && len(cases) > 200 {
+			cs.Artela, cs.Up = nil, nil // the full observations are kept for the first cases and for every differing one
+		}
 		cases = append(cases, cs)
 		if len(cs.Oracle) > 0 {
 			continue
@@ -467,6 +470,9 @@ func cmdDiffRef(args []string) error {
 					stats["class:gas-boundary"]++
 					if ga.Err == "out of gas" {
 						stats["gas-boundary-oog"]++
+					}
+					if len(cc.Oracle) == 0 {
+						cc.Artela, cc.Up = nil, nil
 					}
 					cases = append(cases, cc)
 				}
